@@ -1005,7 +1005,7 @@ _DEFAULTS = dict(min_units=1, max_units=4, max_depth=4, max_dies=40, versions=(2
                  partial_units=True, refs=True, share_abbrev=0.5, sibling=0.35, strp=0.5,
                  lone_null=0.15, odd_codes=0.3, cross_unit_chains=False, max_chain=4,
                  llvm_safe=True, v4_block_locations=False, extras=0.3, refused=0.0, cu_imports=0.0, dup_attrs=0.0, implicit_consts=0.0, const_blocks=0.0, empty_ranges=0.0,
-                 rich_ops=0.0, loclists=0.0, type_units=0.0, mixed_enums=0.0, vendor_forms=0.0, both_refs=0.1, dangling_refs=0.0, more_locations=0.0,
+                 rich_ops=0.0, loclists=0.0, type_units=0.0, mixed_enums=0.0, vendor_forms=0.0, both_refs=0.1, dangling_refs=0.0, more_locations=0.0, cv_variants=0.0,
                  const_forms=("data1", "data2", "data4", "data8", "sdata", "udata"))
 
 _WORDS = ["foo", "bar", "baz", "qux", "main", "x", "y", "i", "T", "value", "next", "node",
@@ -1967,6 +1967,20 @@ class ForestGen:
             self._add_types(units)
             self._add_chains(units)
         self._enrich(units)
+        if self.opts["cv_variants"] > 0:
+            # the other qualifier-like tags that are looked through when the sign of a constant is taken from its type
+            for u in units:
+                for d in u.root.walk():
+                    if d.tag == T["const_type"] and self._chance(self.opts["cv_variants"]):
+                        d.tag = self.rng.choice([0x35, 0x35, 0x37, 0x2d])       # volatile_type, restrict_type, packed_type
+                        if d.parent is not None and d.has("type"):
+                            # a constant whose sign has to be found behind it
+                            v = Die(T["variable"], u, d.parent)
+                            d.parent.children.append(v)
+                            self._add_name(v)
+                            v.add("type", "ref4", d)
+                            form = self.rng.choice(["data1", "data2", "data4", "data8"])
+                            v.add("const_value", form, self.rng.choice(_BOUNDARY[form][2:5]))
         if self.opts["dangling_refs"] > 0:
             # a reference libdw cannot resolve (beyond the section): the raw view lists the attribute all the same
             for u in units:
